@@ -555,6 +555,9 @@ class TransferManager(BaseManager):
             download._remotely_queue_task.add_done_callback(
                 download._remotely_queue_task_complete
             )
+            download._remotely_queue_task.add_done_callback(
+                self._on_transfer_task_done
+            )
 
         # Uploads should be initialized and uploaded if possible
         for upload in uploads[:free_upload_slots]:
@@ -565,6 +568,15 @@ class TransferManager(BaseManager):
             upload._transfer_task.add_done_callback(
                 upload._transfer_task_complete
             )
+            upload._transfer_task.add_done_callback(
+                self._on_transfer_task_done
+            )
+
+    def _on_transfer_task_done(self, task: asyncio.Task):
+        # The cycle requested by the last state change of the task can run
+        # before the callback that clears the task handle: the transfer is
+        # skipped as long as it holds a task, look at it again now
+        self.request_management_cycle(_RequestFlag.TRANSFER_CHANGE)
 
     async def manage_shares_changed(self):
         logger.debug("processing shares or block list changes")
@@ -1429,6 +1441,9 @@ class TransferManager(BaseManager):
                     )
                     transfer._transfer_task.add_done_callback(
                         transfer._transfer_task_complete
+                    )
+                    transfer._transfer_task.add_done_callback(
+                        self._on_transfer_task_done
                     )
                     return
 
